@@ -6,6 +6,7 @@ import (
 	"go/constant"
 	"go/token"
 	"go/types"
+	"golang.org/x/tools/go/types/typeutil"
 	"sort"
 	"strings"
 
@@ -916,6 +917,30 @@ func (w *idxWalker) define(l, r ast.Expr, facts []scandfa.Fact) []scandfa.Fact {
 					facts = append(facts, scandfa.Fact{E: scandfa.TermExpr(t)})
 				}
 			}
+			// i := strings.IndexByte(s, c) (Index, LastIndex, IndexRune, IndexAny; package bytes alike):
+			// -1 <= i, and i <= len(s)-1 (i <= len(s) when the needle can be empty)
+			if call, ok := r.(*ast.CallExpr); ok && len(call.Args) == 2 {
+				if fn, ok := typeutil.Callee(w.info, call).(*types.Func); ok && fn.Pkg() != nil && (fn.Pkg().Path() == "strings" || fn.Pkg().Path() == "bytes") {
+					found := -1
+					switch fn.Name() {
+					case "IndexByte", "LastIndexByte", "IndexRune", "IndexAny", "LastIndexAny":
+						found = 1
+					case "Index", "LastIndex":
+						found = 0
+						if tv, ok := w.info.Types[call.Args[1]]; ok && tv.Value != nil && tv.Value.Kind() == constant.String {
+							found = 1 // a non-empty needle is found strictly inside; with -1 for "absent" the bound i <= len(s)-1 holds either way
+						}
+						if tv, ok := w.info.Types[call.Args[1]]; !ok || tv.Value == nil || constant.StringVal(tv.Value) == "" {
+							found = 0
+						}
+					}
+					hay := w.lenOf(call.Args[0])
+					if found >= 0 && !hay.Mentions(t) {
+						facts = append(facts, scandfa.Fact{E: scandfa.TermExpr(t).Plus(scandfa.Const(1))})
+						facts = append(facts, scandfa.Fact{E: hay.Minus(scandfa.TermExpr(t)).Plus(scandfa.Const(-found))})
+					}
+				}
+			}
 			return facts
 		}
 	}
@@ -1238,7 +1263,6 @@ func (w *idxWalker) site(n ast.Expr, facts []scandfa.Fact) {
 	}
 	w.note(key, n.Pos(), msg)
 }
-
 
 // viaCallers: the missing goals of a site mention only parameters of its
 // function (p, len(p), cap(p)) which the function never assigns; they hold if
